@@ -299,8 +299,8 @@ Arguments NameErr {M}. Arguments Ok {M}.
 
 (* MODEL SWITCH (read by harness/c12.py as well): false = the code as it is now (an instantaneous entry is printed without the
    table of past symbols: any past symbol left in it is an undefined name, defect D08b); true = the code with the repair
-   /verif/fixes/proposed_fix_C12_D08b.diff (J0 entries are printed with the table of past symbols, like the history entries). *)
-Definition fixed_D08b : bool := false.
+   D64 = /verif/fixes/fix_D64.diff (J0 entries are printed with the table of past symbols, like the history entries); in /repo since d28043d. *)
+Definition fixed_D08b : bool := true.
 
 Definition name_error {K} (O : ops K) (skip : atom -> expr K -> bool) (s : sys K) : bool :=
   existsb (fun ke => has_past (snd ke)) (j0_entries O skip (states s) (fexprs s)).
